@@ -169,7 +169,7 @@ func H_RendererReset() {
 			z.SetCReg(0, false, ivg.CRegColor(1)) // reads a register: must be the palette's value
 		}
 		z.StartPath(0, 1, 2)
-		z.RelSmoothQuadTo(3, 4)  // smooth memory must be clear
+		z.RelSmoothQuadTo(3, 4) // smooth memory must be clear
 		z.AbsSmoothCubeTo(5, 6, 7, 8)
 		z.ClosePathEndPath()
 	}
